@@ -378,6 +378,25 @@ def renameDimFile (f : File) (old new : String) : Except String File :=
     dims := if old == new then f.dims else (f.dims.filter (·.name != old)) ++ ((f.dim? old).map (fun d => { d with name := new })).toList,
     vars := f.vars.map (fun v => { v with dims := v.dims.map (fun k => if k == old then new else k) }) }
 
+/-- new name of a dimension under a multi-rename (pairs old ↦ new) -/
+def renameKey (ps : List (String × String)) (k : String) : String := (ps.lookup k).getD k
+
+/-- the renamed dimension objects, in the order of the keyword arguments -/
+def renamedDims (f : File) (ps : List (String × String)) : List Dim :=
+  ps.filterMap (fun p => (f.dim? p.1).map (fun d => { d with name := p.2 }))
+
+/-- `renameDimensions(**newkeys)`: identity pairs are dropped; two dimensions cannot take the same name (repaired),
+a new name cannot be an existing dimension (ValueError), an old one must exist (KeyError); the renamed dimensions
+move to the end in keyword order.  Python keyword arguments have distinct old names. -/
+def renameDimsFile (f : File) (pairs : List (String × String)) : Except String File :=
+  let ps := pairs.filter (fun p => p.1 != p.2)
+  if !(ps.map (·.2)).Nodup then .error "ValueError" else
+  if ps.any (fun p => (f.dim? p.2).isSome) then .error "ValueError" else
+  if ps.any (fun p => (f.dim? p.1).isNone) then .error "KeyError" else
+  .ok { f with
+    dims := f.dims.filter (fun d => !(ps.map (·.1)).contains d.name) ++ renamedDims f ps,
+    vars := f.vars.map (fun v => { v with dims := v.dims.map (renameKey ps) }) }
+
 /-- `removeSingleton(dimkey)` -/
 def removeSingletonFile (f : File) (dimkey : Option String) : File :=
   let removed := (f.dims.filter (fun d => d.len == 1 && (dimkey.isNone || dimkey == some d.name))).map (·.name)
@@ -609,6 +628,9 @@ def runOp (f : File) (tok : String) : Except String File :=
   | ["subset", names, ex] => subsetFile f (parseNames names) (ex == "1")
   | ["renamevar", o, n] => renameVarFile f o n
   | ["renamedim", o, n] => renameDimFile f o n
+  | ["renamedims", ps] => renameDimsFile f ((ps.splitOn ";").filterMap (fun t => match t.splitOn "=" with
+      | [a, b] => some (a, b)
+      | _ => none))
   | ["removesingleton", d] => .ok (removeSingletonFile f (if d = "_" then none else some d))
   | ["insertdim", name, len, no, mo, b, a] => match parseNat len with
     | some l => .ok (insertDimFile f name l (no == "1") (mo == "1")
